@@ -315,7 +315,7 @@ def _run(run):
 
     # ---- corpus of valid encodings
     corpus = []
-    for _ in range(400 if T else 60):
+    for _ in range(900 if T else 60):
         v = SL.gen_value(r, r.choice([1, 2, 3]))
         e = SL.impl_encode(v)
         if e[0] == 0 and len(e[1]) <= (400 if T else 90):
@@ -350,7 +350,7 @@ def _run(run):
         for f in flips(msg, pos):
             cases.append(("flip-" + name, FR, f))
     # ---- random bytes
-    for _ in range(60000 if T else 4000):
+    for _ in range(150000 if T else 4000):
         n = r.choice([0, 1, 2, 3, 4, 5, 6, 8, 12, 20, 40, 100]) if r.random() < 0.9 else r.randrange(100, 2000)
         cases.append(("random", FR, biased_random(r, n) if r.random() < 0.8 else bytes(r.getrandbits(8) for _ in range(n))))
     # ---- crafted length fields
